@@ -93,6 +93,8 @@ func vfGenC01(r *vfRand, id int) *vfWorldCase {
 		cfg.Excluded = []string{"/assets/", "/health"}
 	}
 	cfg.LongKeys = r.chance(1, 4) // two deployments whose long keys differ only in their last characters
+	// where the browser lands after a logout is no statement about what is public
+	cfg.PostLogout = vfPick(r, "", "", "/", "/?logged_out=1", "/#/bye", "https://www.example.com/", "/bye", "https://www.example.org", "/public-landing", "/app")
 	cs := &vfWorldCase{ID: id, Kind: "gate", Script: vfScript{Cfg: cfg, Browsers: 2}}
 	var acts []vfAction
 	// browser 1 holds a genuine session obtained by a real login (source of cookies to steal / merge)
@@ -127,6 +129,9 @@ func vfGenC01(r *vfRand, id int) *vfWorldCase {
 	for i := r.intn(3); i > 0; i-- {
 		acts = append(acts, vfAction{Kind: "tamper", Browser: 0, Tamper: vfPick(r, "drop", "junk", "truncate", "flip", "swap"),
 			Name: vfPick(r, "m", "a", "r", "a0", "a1"), Name2: vfPick(r, "a", "r", "m")})
+	}
+	if r.chance(1, 5) { // the provider has rotated its signing key meanwhile
+		acts = append(acts, vfAction{Kind: "reconf", Prov: "rotate_keys", Mode: vfPick(r, "tick", "reload")})
 	}
 	// the probing requests
 	paths := []string{"/", "/app", "/api/x", "/public", "/public/a.css", "/x/public", "/publicity", "/health", "/healthz", "/favicon.ico",
@@ -165,6 +170,18 @@ func vfGenC01(r *vfRand, id int) *vfWorldCase {
 	return cs
 }
 
+// the provider rotates its signing key; once the instances have the new key set (reload, or the cached set has run out), sessions
+// whose ID token was signed with the retired key are not forwarded any more, and new logins work
+func vfC01Rotation(mode string, refresh int) *vfWorldCase {
+	acts := append(vfLogin(0, 0, "/app", vfOkScript(vfPlainTok("user@example.com", 3600))), vfGated(0, 0, "/app", 1))
+	acts = append(acts, vfAction{Kind: "mint", Browser: 1, Mint: &vfMintSpec{Auth: true, Email: "b@example.com", Tok: vfPlainTok("b@example.com", 3600), RefreshLen: refresh}}, vfGated(1, 0, "/b", 1))
+	acts = append(acts, vfAction{Kind: "reconf", Prov: "rotate_keys", Mode: mode}, vfGated(0, 0, "/app", 1),
+		vfReqAct(1, 0, "GET", "/b", 1, func(q *vfReq) { q.Script = vfOkScript(vfPlainTok("b@example.com", 3600)) }), vfGated(1, 0, "/b/2", 1))
+	acts = append(acts, vfLogin(0, 0, "/app", vfOkScript(vfPlainTok("user@example.com", 3600)))...)
+	acts = append(acts, vfGated(0, 0, "/app", 1))
+	return &vfWorldCase{Kind: "corpus", Script: vfScript{Cfg: vfWorldCfg{EndSession: true, GraceSec: 60}, Browsers: 2, Actions: acts}}
+}
+
 func vfCorpusC01() []*vfWorldCase {
 	sse := &vfWorldCase{Kind: "corpus", Script: vfScript{Cfg: vfWorldCfg{EndSession: true, GraceSec: 60}, Browsers: 1, Actions: []vfAction{
 		vfReqAct(0, 0, "GET", "/app/events", 1, func(q *vfReq) { q.Accept = "text/event-stream" })}}}
@@ -201,7 +218,7 @@ func vfCorpusC01() []*vfWorldCase {
 	azp := &vfWorldCase{Kind: "corpus", Script: vfScript{Cfg: vfWorldCfg{EndSession: true, GraceSec: 60}, Browsers: 1, Actions: append(
 		vfLogin(0, 0, "/app", vfOkScript(vfTokForState(nil, "wrong_aud_azp"))), vfGated(0, 0, "/app", 1),
 		vfAction{Kind: "mint", Browser: 0, Mint: &vfMintSpec{Auth: true, Email: "user@example.com", Tok: vfTokForState(nil, "wrong_aud_azp")}}, vfGated(0, 0, "/app", 1))}}
-	return []*vfWorldCase{sse, foreign, foreignLong, preflight, azp, stale("no_id_token", false, nil), stale("no_id_token", true, nil),
+	return []*vfWorldCase{vfC01Rotation("tick", 0), vfC01Rotation("tick", 24), vfC01Rotation("reload", 24), sse, foreign, foreignLong, preflight, azp, stale("no_id_token", false, nil), stale("no_id_token", true, nil),
 		stale("ok", false, vfTokForState(nil, "expired")), stale("ok", false, vfTokForState(nil, "bad_sig")), edge}
 }
 
@@ -280,8 +297,14 @@ func vfCorpusC03() []*vfWorldCase {
 			vfAction{Kind: "callback", Browser: 0, Script: ok}, vfGated(0, 0, "/private", 1))
 		return &vfWorldCase{Kind: "corpus", Script: vfScript{Cfg: vfWorldCfg{PKCE: pkce, EndSession: true, GraceSec: 60}, Browsers: 2, Actions: acts}}
 	}
+	// an authorization response that carries BOTH an error and the browser's own unused state and code: never a session
+	both := func(desc string, js bool) *vfWorldCase {
+		acts := []vfAction{vfGated(0, 0, "/protected", 1), {Kind: "authorize", Browser: 0},
+			{Kind: "callback", Browser: 0, AcceptJS: js, ErrParam: "access_denied", ErrDesc: desc, StateMode: "own", CodeMode: "own", Script: ok}, vfGated(0, 0, "/protected", 1)}
+		return &vfWorldCase{Kind: "corpus", Script: vfScript{Cfg: vfWorldCfg{PKCE: true, EndSession: true, GraceSec: 60}, Browsers: 1, Actions: acts}}
+	}
 	lg := vfLogin(1, 0, "/mine", ok)
-	return []*vfWorldCase{replay, adv([]string{"plain"}), adv([]string{"S256", "plain"}), adv([]string{}),
+	return []*vfWorldCase{both("", false), both("user said no", true), replay, adv([]string{"plain"}), adv([]string{"S256", "plain"}), adv([]string{}),
 		other(false), other(true), other(true, vfGated(1, 0, "/mine", 1)), other(false, lg...)}
 }
 
@@ -369,10 +392,18 @@ func vfGenC04(r *vfRand, id int) *vfWorldCase {
 	}
 	for i := 1 + r.intn(12); i > 0; i-- {
 		swap()
+		if r.chance(1, 8) {
+			// the logged-in browser opens an authorization response again (back button, reload of the callback address, a bookmark,
+			// a stale or made-up one): whatever the answer, the established session goes on
+			acts = append(acts, vfAction{Kind: "callback", Browser: 0, Slot: slot(), AcceptJS: r.chance(1, 4),
+				StateMode: vfPick(r, "own", "own", "garbage", "absent"), CodeMode: vfPick(r, "reused", "reused", "garbage", "absent"), Script: sc})
+			continue
+		}
 		acts = append(acts, vfReqAct(0, slot(), vfPick(r, "GET", "GET", "POST", "HEAD", "PUT"), vfPaths[r.intn(len(vfPaths))], 1, func(q *vfReq) {
 			q.AcceptJS = r.chance(1, 4)
 		}))
 	}
+	acts = append(acts, vfGated(0, slot(), "/app/last", 1))
 	cs.Script.Actions = acts
 	return cs
 }
@@ -381,6 +412,7 @@ func vfCorpusC04() []*vfWorldCase {
 	spec := vfPlainTok("u@example.com", 3600)
 	spec.Jti = "jti-corpus-c04"
 	acts := append(vfLogin(0, 0, "/app", vfOkScript(spec)), vfGated(0, 0, "/app", 1), vfGated(0, 0, "/app", 1),
+		vfAction{Kind: "callback", Browser: 0, CodeMode: "reused", Script: vfOkScript(spec)}, vfGated(0, 0, "/app/page", 1), vfGated(0, 0, "/", 1),
 		vfAction{Kind: "newinst", Slot: 0}, vfGated(0, 0, "/app", 1), vfGated(0, 0, "/b", 1))
 	// established sessions are served by a freshly started instance whatever the verification rate limit is:
 	// 14 browsers log in (paced, so that the logins themselves stay within the limit of 10/s), the instance is
@@ -459,14 +491,50 @@ func vfGenC06(r *vfRand, id int) *vfWorldCase {
 		return t
 	}
 	acts := vfLogin(0, 0, "/app", vfOkScript(mk()))
-	for i := 1 + r.intn(4); i > 0; i-- {
-		acts = append(acts, vfReqAct(0, 0, "GET", vfPaths[r.intn(len(vfPaths))], 1, func(q *vfReq) {
-			q.AcceptJS = r.chance(1, 4)
-			q.Script = &vfTokenScript{Kind: "ok", Spec: mk(), Rotate: r.chance(1, 2)}
-		}))
+	more := func() {
+		for i := 1 + r.intn(4); i > 0; i-- {
+			acts = append(acts, vfReqAct(0, 0, "GET", vfPaths[r.intn(len(vfPaths))], 1, func(q *vfReq) {
+				q.AcceptJS = r.chance(1, 4)
+				q.Script = &vfTokenScript{Kind: "ok", Spec: mk(), Rotate: r.chance(1, 2)}
+			}))
+		}
+	}
+	more()
+	if r.chance(1, 3) {
+		// the deployment is reconfigured (other allow-lists) and Traefik rebuilds the middleware: the sessions issued before
+		// are judged by the lists valid NOW, whatever was decided about them earlier
+		c2 := cfg
+		switch r.intn(5) {
+		case 0:
+			c2.Roles = []string{"admin"}
+		case 1:
+			c2.Roles = []string{"nobody-has-this"}
+		case 2:
+			c2.Domains = []string{"corp.example.org"}
+		case 3:
+			c2.Domains, c2.Roles = nil, nil
+		case 4:
+			c2.Roles, c2.Domains = []string{"staff", "dev"}, []string{"example.com"}
+		}
+		acts = append(acts, vfAction{Kind: "reconf", Cfg2: &c2}, vfGated(0, 0, "/app", 1))
+		more()
 	}
 	cs.Script.Actions = acts
 	return cs
+}
+
+// a session accepted under one allow-list, then the same deployment with a tighter list (reload), and back
+func vfC06Reload() *vfWorldCase {
+	t := vfPlainTok("alice@example.com", 3600)
+	t.Roles, t.Groups = []interface{}{"user"}, []interface{}{"staff"}
+	c1 := vfWorldCfg{EndSession: true, GraceSec: 60, Roles: []string{"user"}}
+	c2 := vfWorldCfg{EndSession: true, GraceSec: 60, Roles: []string{"admin"}}
+	c3 := vfWorldCfg{EndSession: true, GraceSec: 60, Roles: []string{"user"}, Domains: []string{"corp.example.org"}}
+	acts := append(vfLogin(0, 0, "/staff", vfOkScript(t)), vfGated(0, 0, "/staff", 1), vfGated(0, 0, "/staff/2", 1),
+		vfAction{Kind: "reconf", Cfg2: &c2}, vfGated(0, 0, "/admin", 1), vfGated(0, 0, "/admin/2", 1),
+		vfAction{Kind: "reconf", Cfg2: &c1}, vfGated(0, 0, "/staff", 1),
+		vfAction{Kind: "reconf", Cfg2: &c3}, vfGated(0, 0, "/staff", 1))
+	return &vfWorldCase{Kind: "corpus", Script: vfScript{Cfg: c1, Browsers: 1, Actions: acts}}
 }
 
 func vfCorpusC06() []*vfWorldCase {
@@ -478,7 +546,7 @@ func vfCorpusC06() []*vfWorldCase {
 	blankR := vfWorldCfg{EndSession: true, GraceSec: 60, Roles: []string{" "}}
 	t3 := vfPlainTok("mallory@evil.example", 3600)
 	t3.Groups = []interface{}{"staff"}
-	return []*vfWorldCase{
+	return []*vfWorldCase{vfC06Reload(),
 		{Kind: "corpus", Script: vfScript{Cfg: c, Browsers: 1, Actions: append(vfLogin(0, 0, "/app", vfOkScript(t1)), vfGated(0, 0, "/app", 1))}},
 		{Kind: "corpus", Script: vfScript{Cfg: c, Browsers: 1, Actions: append(vfLogin(0, 0, "/app", vfOkScript(t2)), vfGated(0, 0, "/app", 1))}},
 		{Kind: "corpus", Script: vfScript{Cfg: blankD, Browsers: 1, Actions: append(vfLogin(0, 0, "/app", vfOkScript(t3)), vfGated(0, 0, "/app", 1))}},
@@ -641,6 +709,14 @@ func vfCorpusC08() []*vfWorldCase {
 			vfReqAct(0, 0, "GET", "/app", 1, func(q *vfReq) { q.AcceptJS = js; q.Script = &vfTokenScript{Kind: "ok", Spec: sp, Rotate: true} }),
 			vfGated(0, 0, "/app", 1)}}}
 	}
+	// the provider answers the refresh with the very ID token the session already holds (expired / about to expire)
+	echo := func(state string, js bool) *vfWorldCase {
+		return &vfWorldCase{Kind: "corpus", Script: vfScript{Cfg: cfg, Browsers: 1, Actions: []vfAction{
+			{Kind: "mint", Browser: 0, Mint: &vfMintSpec{Auth: true, Email: "alice@example.com", Tok: vfTokForState(nil, state), RefreshLen: 24}},
+			vfReqAct(0, 0, "GET", "/app", 1, func(q *vfReq) { q.AcceptJS = js; q.Script = &vfTokenScript{Kind: "ok", Spec: near(), SameToken: true} }),
+			vfReqAct(0, 0, "GET", "/app", 1, func(q *vfReq) { q.AcceptJS = js; q.Script = &vfTokenScript{Kind: "ok", Spec: near(), SameToken: true, Rotate: true} }),
+			vfGated(0, 0, "/app", 1)}}}
+	}
 	twice := func(again string, js bool) *vfWorldCase {
 		return &vfWorldCase{Kind: "corpus", Script: vfScript{Cfg: cfg, Browsers: 1, Actions: []vfAction{
 			{Kind: "mint", Browser: 0, Mint: &vfMintSpec{Auth: true, Email: "alice@example.com", Tok: vfTokForState(nil, "near"), RefreshLen: 24}},
@@ -652,7 +728,8 @@ func vfCorpusC08() []*vfWorldCase {
 	}
 	return []*vfWorldCase{mk("ok", false), mk("invalid_grant", false), mk("invalid_grant", true), mk("server_error", true),
 		mk("drop", false), mk("drop", true), forged, noMail(nil, false), noMail(nil, true), noMail("", false), noMail(42, true),
-		twice("invalid_grant", false), twice("invalid_grant", true), twice("ok", false), twice("server_error", false)}
+		twice("invalid_grant", false), twice("invalid_grant", true), twice("ok", false), twice("server_error", false),
+		echo("expired", false), echo("expired", true), echo("near", false), echo("expired_in_skew", true)}
 }
 
 // ---------------------------------------------------------------- C09 / C18: every cookie of every flow (flags)
@@ -673,6 +750,11 @@ func vfGenC18(r *vfRand, id int) *vfWorldCase {
 		cs.Script.Actions = append(cs.Script.Actions, vfLogin(0, 0, "/app", big)...)
 		cs.Script.Actions = append(cs.Script.Actions, vfAction{Kind: "tamper", Browser: 0, Tamper: "drop", Name: vfPick(r, "a1", "a0", "r1", "r0")},
 			vfGated(0, 0, "/app", 1))
+	}
+	if r.chance(1, 4) { // reload with forceHTTPS flipped (same key): cookies follow the configuration valid now
+		c2 := cs.Script.Cfg
+		c2.ForceHTTPS = !c2.ForceHTTPS
+		cs.Script.Actions = append(cs.Script.Actions, vfAction{Kind: "reconf", Cfg2: &c2}, vfGated(0, 0, "/app", 1))
 	}
 	cs.Script.Actions = append(cs.Script.Actions, vfLogoutAct(0, 0))
 	if r.chance(1, 3) { // a session that is seconds, hours or almost a day old is written again (expired token, rejected refresh token)
@@ -704,6 +786,14 @@ func vfCorpusC18() []*vfWorldCase {
 	acts2 := append(vfLogin(0, 0, "/app", sc2), vfAction{Kind: "tamper", Browser: 0, Tamper: "drop", Name: "a1"}, vfGated(0, 0, "/app/deep/page", 1), vfLogoutAct(0, 0))
 	acts2 = append(acts2, vfLogin(0, 0, "/app", sc2)...)
 	out = append(out, &vfWorldCase{Kind: "corpus", Script: vfScript{Cfg: vfWorldCfg{EndSession: true, GraceSec: 60}, Browsers: 1, Actions: acts2}})
+	// the deployment first runs without forceHTTPS, then is reloaded with it (same session key): from then on every cookie is Secure
+	off := vfWorldCfg{ForceHTTPS: false, EndSession: true, GraceSec: 7200, ClientProto: "http"}
+	on := off
+	on.ForceHTTPS = true
+	acts3 := append(vfLogin(0, 0, "/app", sc), vfGated(0, 0, "/app", 1), vfAction{Kind: "reconf", Cfg2: &on}, vfGated(0, 0, "/app", 1), vfGated(1, 0, "/new", 1), vfLogoutAct(0, 0))
+	acts3 = append(acts3, vfLogin(1, 0, "/new", sc)...)
+	acts3 = append(acts3, vfAction{Kind: "reconf", Cfg2: &off}, vfGated(1, 0, "/new", 1), vfAction{Kind: "reconf", Cfg2: &on}, vfGated(1, 0, "/new", 1), vfLogoutAct(1, 0))
+	out = append(out, &vfWorldCase{Kind: "corpus", Script: vfScript{Cfg: off, Browsers: 2, Actions: acts3}})
 	// other applications' cookies with look-alike names in the same browser: login with chunked tokens, a smaller refresh, logout
 	out = append(out, &vfWorldCase{Kind: "corpus", Script: vfScript{Cfg: vfWorldCfg{EndSession: true, GraceSec: 7200, ForeignCookies: true}, Browsers: 1, Actions: acts}})
 	return out
@@ -956,6 +1046,11 @@ func vfGenC11(r *vfRand, id int) *vfWorldCase {
 		acts = append(acts, vfLogin(0, 0, "/app", vfOkScript(vfPlainTok("user@example.com", 3600)))...)
 		acts = append(acts, vfGated(0, 0, "/app", 1))
 	}
+	if r.chance(1, 4) { // the provider changes its end-session endpoint; metadata refresh (or reload); login and logout again
+		acts = append(acts, vfAction{Kind: "reconf", Prov: vfPick(r, "move_end", "drop_end", "add_end"), Mode: vfPick(r, "tick", "tick", "reload")})
+		acts = append(acts, vfLogin(0, 0, "/app", vfOkScript(vfPlainTok("user@example.com", 3600)))...)
+		acts = append(acts, vfLogoutAct(0, 0), vfGated(0, 0, "/app", 1))
+	}
 	if r.chance(1, 3) { // the same instance reached under other public origins: each logout returns to the origin it came from
 		for _, h := range []string{"admin.example.test", "", "shop.example.net"} {
 			h := h
@@ -983,7 +1078,18 @@ func vfCorpusC11() []*vfWorldCase {
 	origins := append(vfLogin(0, 0, "/app", vfOkScript(vfPlainTok("user@example.com", 3600))), lo("shop.example.test", ""), lo("admin.example.test", "https"))
 	origins = append(origins, vfLogin(0, 0, "/app", vfOkScript(vfPlainTok("user@example.com", 3600)))...)
 	origins = append(origins, lo("admin.example.test", "https"), lo("", ""))
-	return []*vfWorldCase{
+	// the provider moves, drops or introduces its end-session endpoint; after the middleware's next metadata refresh a logout
+	// uses what the provider publishes NOW
+	moved := func(first bool, changes ...string) *vfWorldCase {
+		a := vfLogin(0, 0, "/app", vfOkScript(vfPlainTok("user@example.com", 3600)))
+		a = append(a, vfLogoutAct(0, 0))
+		for _, ch := range changes {
+			a = append(a, vfLogin(0, 0, "/app", vfOkScript(vfPlainTok("user@example.com", 3600)))...)
+			a = append(a, vfAction{Kind: "reconf", Prov: ch, Mode: "tick"}, vfGated(0, 0, "/app", 1), vfLogoutAct(0, 0), vfGated(0, 0, "/app", 1))
+		}
+		return &vfWorldCase{Kind: "corpus", Script: vfScript{Cfg: vfWorldCfg{EndSession: first, GraceSec: 60, PostLogout: "/bye"}, Browsers: 1, Actions: a}}
+	}
+	return []*vfWorldCase{moved(true, "move_end"), moved(true, "drop_end"), moved(false, "add_end", "move_end", "drop_end"),
 		{Kind: "corpus", Script: vfScript{Cfg: vfWorldCfg{EndSession: true, GraceSec: 60, PostLogout: "/signed-out"}, Browsers: 1, Actions: origins}},
 		{Kind: "corpus", Script: vfScript{Cfg: vfWorldCfg{EndSession: false, GraceSec: 60}, Browsers: 1, Actions: origins}},
 		{Kind: "corpus", Script: vfScript{Cfg: vfWorldCfg{EndSession: true, GraceSec: 7200, PostLogout: "/bye"}, Browsers: 1, Actions: acts}},
@@ -1041,6 +1147,11 @@ func vfGenC15(r *vfRand, id int) *vfWorldCase {
 			acts = append(acts, vfReqAct(0, 0, "GET", vfLogoutPath, 3, func(q *vfReq) { q.XFHost = h; q.NoCookies = true }))
 		}
 	}
+	if r.chance(1, 4) { // the provider moves its authorization endpoint (same issuer); after the metadata refresh logins go to the new one
+		acts = append(acts, vfAction{Kind: "reconf", Prov: "move_auth", Mode: vfPick(r, "tick", "tick", "reload")}, vfLogoutAct(0, 0),
+			vfReqAct(0, 0, "GET", "/after-move", 1, mod), vfAction{Kind: "authorize", Browser: 0},
+			vfAction{Kind: "callback", Browser: 0, Script: vfOkScript(vfPlainTok("user@example.com", 3600))}, vfReqAct(0, 0, "GET", "/after-move", 1, mod))
+	}
 	if r.chance(1, 3) { // expiry / refresh-failure re-initiation from an odd URI
 		acts = append(acts, vfAction{Kind: "mint", Browser: 0, Mint: &vfMintSpec{Auth: true, Email: "user@example.com", Tok: vfTokForState(r, "expired"), RefreshLen: []int{0, 24}[r.intn(2)]}},
 			vfReqAct(0, 0, "GET", vfEvilURIs[r.intn(len(vfEvilURIs))], 1, func(q *vfReq) { q.Script = &vfTokenScript{Kind: "invalid_grant"} }))
@@ -1070,7 +1181,12 @@ func vfCorpusC15() []*vfWorldCase {
 			{Kind: "callback", Browser: 0, Script: vfOkScript(vfPlainTok("user@example.com", 3600))}, vfReqAct(0, 0, "GET", "/dash", 1, mod)}
 		return &vfWorldCase{Kind: "corpus", Script: vfScript{Cfg: vfWorldCfg{EndSession: true, GraceSec: 60}, Browsers: 1, Actions: a}}
 	}
-	return []*vfWorldCase{
+	mv := func(mode string) *vfWorldCase {
+		a := []vfAction{vfGated(0, 0, "/first", 1), {Kind: "reconf", Prov: "move_auth", Mode: mode}, vfGated(0, 0, "/second", 1), {Kind: "authorize", Browser: 0},
+			{Kind: "callback", Browser: 0, Script: vfOkScript(vfPlainTok("user@example.com", 3600))}, vfGated(0, 0, "/second", 1), vfLogoutAct(0, 0), vfGated(0, 0, "/third", 1)}
+		return &vfWorldCase{Kind: "corpus", Script: vfScript{Cfg: vfWorldCfg{EndSession: true, GraceSec: 60}, Browsers: 1, Actions: a}}
+	}
+	return []*vfWorldCase{mv("tick"), mv("reload"),
 		pfx("X-Forwarded-Prefix", "/app/../\\evil.example"), pfx("X-Forwarded-Prefix", "//evil.example"), pfx("X-Forwarded-Uri", "//evil.example/x"),
 		{Kind: "corpus", Script: vfScript{Cfg: vfWorldCfg{EndSession: true, GraceSec: 60}, Browsers: 1, Actions: acts}},
 		{Kind: "corpus", Script: vfScript{Cfg: vfWorldCfg{EndSession: false, GraceSec: 60, PostLogout: "/bye"}, Browsers: 1, Actions: acts2}},
@@ -1116,8 +1232,8 @@ func vfGenC16(r *vfRand, id int) *vfWorldCase {
 			acts = append(acts, again)
 			continue
 		}
-		a := vfAction{Kind: "callback", Browser: 0, AcceptJS: r.chance(1, 2), StateMode: vfPick(r, "own", "garbage", "absent"), CodeMode: vfPick(r, "own", "garbage", "absent"),
-			Script: &vfTokenScript{Kind: vfPick(r, "ok", "invalid_grant"), Spec: vfPlainTok(vfPick(r, "u@example.com", "u@evil.com"), 3600), NonceMode: vfPick(r, "", "other")}}
+		a := vfAction{Kind: "callback", Browser: 0, AcceptJS: r.chance(1, 2), StateMode: vfPick(r, "own", "own", "garbage", "absent"), CodeMode: vfPick(r, "own", "garbage", "absent", "markup", "markup"),
+			Script: &vfTokenScript{Kind: vfPick(r, "ok", "invalid_grant", "html_error", "html_error_401", "server_error"), Spec: vfPlainTok(vfPick(r, "u@example.com", "u@evil.com"), 3600), NonceMode: vfPick(r, "", "other")}}
 		switch r.intn(5) {
 		case 0:
 			a.ErrParam, a.ErrDesc = "access_denied", m()
@@ -1141,6 +1257,13 @@ func vfGenC16(r *vfRand, id int) *vfWorldCase {
 	return cs
 }
 
+// the token endpoint (a gateway in front of it) refuses the exchange with an HTML page repeating the submitted code
+func vfC16Gateway(kind string, js bool) *vfWorldCase {
+	acts := []vfAction{vfGated(0, 0, "/app", 1), {Kind: "authorize", Browser: 0},
+		{Kind: "callback", Browser: 0, AcceptJS: js, StateMode: "own", CodeMode: "markup", Script: &vfTokenScript{Kind: kind}}}
+	return &vfWorldCase{Kind: "corpus", Script: vfScript{Cfg: vfWorldCfg{EndSession: true, GraceSec: 60}, Browsers: 1, Actions: acts}}
+}
+
 func vfCorpusC16() []*vfWorldCase {
 	mk := func(js bool) *vfWorldCase {
 		return &vfWorldCase{Kind: "corpus", Script: vfScript{Cfg: vfWorldCfg{EndSession: true, GraceSec: 60}, Browsers: 1, Actions: []vfAction{
@@ -1162,7 +1285,8 @@ func vfCorpusC16() []*vfWorldCase {
 			Actions: []vfAction{cb(first), cb(!first), cb(first), {Kind: "callback", Browser: 0, AcceptJS: !first, CodeMode: "garbage", StateMode: "garbage"},
 				{Kind: "callback", Browser: 0, AcceptJS: first, CodeMode: "garbage", StateMode: "garbage"}}}}
 	}
-	return []*vfWorldCase{mk(false), mk(true), stored, linked, both(false), both(true)}
+	return []*vfWorldCase{mk(false), mk(true), stored, linked, both(false), both(true),
+		vfC16Gateway("html_error", true), vfC16Gateway("html_error", false), vfC16Gateway("html_error_401", true)}
 }
 
 // ---------------------------------------------------------------- C17: bad client state
@@ -1229,7 +1353,8 @@ func vfGenC17(r *vfRand, id int) *vfWorldCase {
 	// on every kind of request of the logged-in browser (the logout builds URLs from them)
 	if r.chance(1, 2) {
 		badHost := []string{"bad host", "%", "a.example:80a", "[::1", "exa mple.com", "host\twith\ttabs", "a/b", "@", ":", strings.Repeat("h", 300) + ".example"}
-		badProto := []string{"ht tp", "%zz", "", "https, http", "javascript"}
+		badProto := []string{"ht tp", "%zz", "", "https, http", "javascript", "\"", "\" , x", "\"https", "'", ",", " , ", "https;", "\"\""}
+		badHost = append(badHost, "\"", "\" , x", ",", " ", "\"\"", "a.example, b.example", "a.example,")
 		for _, target := range []string{"/healed", vfLogoutPath, vfCallbackPath + "?state=x&code=y", "/after"} {
 			target := target
 			tag := 1
@@ -1240,6 +1365,9 @@ func vfGenC17(r *vfRand, id int) *vfWorldCase {
 				q.XFHost = badHost[r.intn(len(badHost))]
 				if r.chance(1, 2) {
 					q.XFProto = badProto[r.intn(len(badProto))]
+				}
+				if r.chance(1, 3) { // RFC 7239
+					q.Headers = map[string]string{"Forwarded": vfPick(r, "for=1.2.3.4;host=\"", "for=1.2.3.4;proto=\";host=x", "host=\"a.example\";proto=https", ";;;", "for=\"[::1]:80\";by=_x;host=", "\"")}
 				}
 			}))
 		}
